@@ -60,6 +60,9 @@ def reductions_order_independent(ctx, rule, f, s):
 
 def check(ctx):
     p = ctx.prog
+    no_use_after_move(ctx, 'move.no_use_after_move', ['hep::hep_distribution_accumulator'], opaque={'hep::weighted_with_variance::operator()', 'hep::weighted_equally::operator()'})
+    # counters are summed in std::size_t
+    counters_full_width(ctx, 'prec.counter_width', ['hep::weighted_with_variance::', 'hep::weighted_equally::', 'hep::chi_square_dof', 'hep::hep_distribution_accumulator', 'hep::create_result', 'hep::accumulate'])
     # all arithmetic behind this property happens in the numeric type T of the instantiation
     single_precision(ctx, 'prec.single_type', ['hep::weighted_with_variance::', 'hep::weighted_equally::', 'hep::chi_square_dof', 'hep::hep_distribution_accumulator', 'hep::create_result', 'hep::mc_result::'], 1)
     ctx.assume('positive variances, calls >= 2 for every combined result (property premise)')
